@@ -194,6 +194,16 @@ theorem gw_sha256_iff {t : util.EFIGUID} (ht : GuidOK t) :
     gw t = Impl.guidSha256 ↔ t = signature.CERT_SHA256_GUID := by
   rw [← C09g_schemes.2.2.1, C09g_gw_inj ht guidOK_sha256]
 
+theorem guidOK_external : GuidOK signature.CERT_EXTERNAL_MANAGEMENT_GUID := rfl
+
+/-- the translated constant of the externally-managed type is the model's (F37) -/
+theorem C09g_gw_external : gw signature.CERT_EXTERNAL_MANAGEMENT_GUID = Impl.guidExternal := by
+  decide +kernel
+
+theorem gw_external_iff {t : util.EFIGUID} (ht : GuidOK t) :
+    gw t = Impl.guidExternal ↔ t = signature.CERT_EXTERNAL_MANAGEMENT_GUID := by
+  rw [← C09g_gw_external, C09g_gw_inj ht guidOK_external]
+
 /-- the model's PEM normalisation through `absE` is the translated code's -/
 theorem absE_norm (E : Ext) {t : util.EFIGUID} (ht : GuidOK t) (d : List UInt8) :
     (absE E).norm (gw t) d = normData E t d := by
@@ -237,6 +247,14 @@ theorem appendBytes_rel {E : Ext} {l : signature.SignatureList} {o : util.EFIGUI
     · have hs' : ¬ ((absL l).type = Impl.guidSha256 ∧ d'.length ≠ 32) :=
         fun h => hs ⟨(gw_sha256_iff hl.1).mp h.1, h.2⟩
       rw [if_neg hs, if_neg hs']
+      by_cases hx : l.SignatureType = signature.CERT_EXTERNAL_MANAGEMENT_GUID ∧ d'.length ≠ 1
+      · have hx' : (absL l).type = Impl.guidExternal ∧ d'.length ≠ 1 :=
+          ⟨(gw_external_iff hl.1).mpr hx.1, hx.2⟩
+        rw [if_pos hx, if_pos hx']
+        simp [AppRel]
+      have hx' : ¬ ((absL l).type = Impl.guidExternal ∧ d'.length ≠ 1) :=
+        fun h => hx ⟨(gw_external_iff hl.1).mp h.1, h.2⟩
+      rw [if_neg hx, if_neg hx']
       by_cases hz : l.Signatures ≠ [] ∧ UInt32.ofNat d'.length + 16 ≠ l.Size
       · have hz' : (absL l).sigs ≠ [] ∧ d'.length + 16 ≠ (absL l).size := by
           refine ⟨by simpa [absL] using hz.1, fun h => hz.2 ((ofNat_add16_eq_iff hd').mpr h)⟩
@@ -633,6 +651,85 @@ theorem C09g_remove_err_iff {sd : signature.SignatureDatabase} {t o : util.EFIGU
       cases hk
     | some e => exact absurd hrel (by simp [RmRel])
 
+/-! ### wrongly-sized appends, on the translated code outright (F37)
+
+No refinement hypothesis is needed for these: no invariant, no `GuidOK`, no bound on the sizes, any
+`pem.Decode`.  They are statements about what `AppendBytes` / `Append` in the source say now; without
+the second `case` of the `switch` in `AppendBytes` the externally-managed half does not hold
+(`[] .Append(EXTERNAL_MANAGEMENT, o, [1,2])` used to succeed). -/
+
+/-- the list-level `AppendBytes` refuses SHA-256 data that is not 32 bytes and externally-managed data
+    that is not one byte, and leaves the list as it was -/
+theorem C09g_list_append_wrong_size (E : Ext) (l : signature.SignatureList) (o : util.EFIGUID)
+    (d : List UInt8)
+    (h : (l.SignatureType = signature.CERT_SHA256_GUID ∧ d.length ≠ 32) ∨
+         (l.SignatureType = signature.CERT_EXTERNAL_MANAGEMENT_GUID ∧ d.length ≠ 1)) :
+    (l.AppendBytes E o d).2.isSome = true ∧ (l.AppendBytes E o d).1 = l := by
+  have hn : normData E l.SignatureType d = d := by
+    unfold normData
+    rcases h with h | h
+    · rw [if_neg (by rw [h.1]; exact CERT_SHA256_ne_X509)]
+    · rw [if_neg (by rw [h.1]; decide)]
+  have h1 : (l.AppendBytes E o d).2.isSome = true := by
+    rw [signature.SignatureList.AppendBytes_eq, hn]
+    split
+    · rfl
+    · split
+      · rfl
+      · split
+        · rfl
+        · rename_i _ h2 h3
+          rcases h with h | h
+          · exact absurd h h2
+          · exact absurd h h3
+  exact ⟨h1, signature.SignatureList.AppendBytes_err E l o d h1⟩
+
+/-- when every list of type `t` refuses the entry, the list loop of `Append` does not end in success -/
+theorem append_loop_refuses (E : Ext) (t o : util.EFIGUID) (d : List UInt8)
+    (hbad : ∀ l : signature.SignatureList, l.SignatureType = t → (l.AppendBytes E o d).2.isSome = true)
+    (pre ls : List signature.SignatureList) :
+    match signature.SignatureDatabase.Append.loop1 E t o d pre ls with
+    | Loop.ret r => r.2.isSome = true
+    | Loop.done _ => True := by
+  induction ls generalizing pre with
+  | nil => simp [signature.SignatureDatabase.Append.loop1]
+  | cons l rest ih =>
+    rw [signature.SignatureDatabase.Append.loop1_cons]
+    by_cases hc : l.SignatureType = t ∧ UInt32.ofNat d.length + 16 = l.Size
+    · rw [if_pos hc]; exact hbad l hc.1
+    · rw [if_neg hc]; exact ih (pre ++ [l])
+
+/-- **C09, "a wrongly-sized append reports an error and changes nothing", for the translated
+    `SignatureDatabase.Append`**: every database value, every owner, every `pem.Decode`. -/
+theorem C09g_append_wrong_size (E : Ext) (sd : signature.SignatureDatabase) (t o : util.EFIGUID)
+    (d : List UInt8)
+    (h : (t = signature.CERT_SHA256_GUID ∧ d.length ≠ 32) ∨
+         (t = signature.CERT_EXTERNAL_MANAGEMENT_GUID ∧ d.length ≠ 1)) :
+    (sd.Append E t o d).2.isSome = true ∧ (sd.Append E t o d).1 = sd := by
+  have hn : normData E t d = d := by
+    unfold normData
+    rcases h with h | h
+    · rw [if_neg (by rw [h.1]; exact CERT_SHA256_ne_X509)]
+    · rw [if_neg (by rw [h.1]; decide)]
+  have hbad : ∀ l : signature.SignatureList, l.SignatureType = t →
+      (l.AppendBytes E o d).2.isSome = true := fun l hl =>
+    (C09g_list_append_wrong_size E l o d (by rw [hl]; exact h)).1
+  have h1 : (sd.Append E t o d).2.isSome = true := by
+    rw [signature.SignatureDatabase.Append_eq, hn]
+    split
+    · rfl
+    · split
+      · rfl
+      · have hl := append_loop_refuses E t o d hbad [] sd
+        revert hl
+        cases signature.SignatureDatabase.Append.loop1 E t o d [] sd with
+        | ret r => exact fun hl => hl
+        | done m =>
+          intro _
+          have hb := hbad (signature.NewSignatureList t) rfl
+          simp only [hb, if_true]
+  exact ⟨h1, signature.SignatureDatabase.Append_err E sd t o d h1⟩
+
 /-! ### counterexamples to the two statements that had to be weakened
 
 `Append` on the empty database with X.509 data of `2^32 - 30` bytes (not PEM): every hypothesis of
@@ -654,8 +751,9 @@ theorem cx_model (d : List UInt8) :
         [⟨gw signature.CERT_X509_GUID, d⟩]⟩] := by
   have h1 : gw signature.CERT_X509_GUID ∈ Impl.schemes := by decide +kernel
   have h2 : ¬ gw signature.CERT_X509_GUID = Impl.guidSha256 := by decide +kernel
+  have h3 : ¬ gw signature.CERT_X509_GUID = Impl.guidExternal := by decide +kernel
   simp [Impl.Db.append, h1, cxE_norm, absDb, Impl.Db.has, Impl.appendInto, Impl.SList.appendBytes,
-    Impl.SList.has, Impl.newList, h2]
+    Impl.SList.has, Impl.newList, h2, h3]
 
 theorem cx_gen (d : List UInt8) (hlen : d.length = 2^32 - 30) :
     signature.SignatureDatabase.Append cxE [] signature.CERT_X509_GUID signature.CERT_X509_GUID d
@@ -664,10 +762,11 @@ theorem cx_gen (d : List UInt8) (hlen : d.length = 2^32 - 30) :
   have h1 : (signature.ValidEFISignatureSchemes.lookup signature.CERT_X509_GUID).isSome = true := by
     decide +kernel
   have h2 : ¬ signature.CERT_X509_GUID = signature.CERT_SHA256_GUID := by decide
+  have h3 : ¬ signature.CERT_X509_GUID = signature.CERT_EXTERNAL_MANAGEMENT_GUID := by decide
   have h4 : (28 : UInt32) + 4294967282 = 14 := by decide
   rw [signature.SignatureDatabase.Append_eq, hn, h1]
   simp [signature.SignatureDatabase.SigDataExists_eq, signature.SignatureDatabase.Append.loop1,
-    signature.SignatureList.AppendBytes_eq, signature.NewSignatureList, hn, h2, hlen, h4,
+    signature.SignatureList.AppendBytes_eq, signature.NewSignatureList, hn, h2, h3, hlen, h4,
     signature.SizeofSignatureList]
 
 theorem cx_append (d : List UInt8) (hlen : d.length = 2^32 - 30) :
@@ -758,6 +857,15 @@ example : (exDb.Append exE signature.CERT_X509_GUID exOwner [1, 2, 3, 4]).2 = so
   decide +kernel
 example : (exDb.Remove signature.CERT_X509_GUID exOwner [1, 2, 3, 4]) = ([], none) := by
   decide +kernel
+/-- F37 on the translated code: the witness of the finding is refused, into the empty database and
+    into one that holds a list; one byte is taken and gives a list of signature size 17 -/
+example : (signature.SignatureDatabase.Append exE [] signature.CERT_EXTERNAL_MANAGEMENT_GUID exOwner [1, 2])
+    = ([], some "errors.New") := by decide +kernel
+example : (exDb.Append exE signature.CERT_EXTERNAL_MANAGEMENT_GUID exOwner [1, 2]) = (exDb, some "errors.New") := by
+  decide +kernel
+example : (signature.SignatureDatabase.Append exE [] signature.CERT_EXTERNAL_MANAGEMENT_GUID exOwner [1])
+    = ([⟨signature.CERT_EXTERNAL_MANAGEMENT_GUID, 45, 0, 17, [], [⟨exOwner, [1]⟩]⟩], none) := by
+  decide +kernel
 end Examples
 
 end GoUefi.C09
@@ -777,5 +885,7 @@ end GoUefi.C09
 #print axioms GoUefi.C09.C09g_append_err
 #print axioms GoUefi.C09.C09g_remove_ok
 #print axioms GoUefi.C09.C09g_remove_err_iff
+#print axioms GoUefi.C09.C09g_list_append_wrong_size
+#print axioms GoUefi.C09.C09g_append_wrong_size
 #print axioms GoUefi.C09.C09g_append_counterexample
 #print axioms GoUefi.C09.C09g_append_ok_counterexample
